@@ -671,3 +671,16 @@ _extend("C13",
           "StmtPrint: arrow bodies, directives, function / class declarations, switch, try, with, comments, LineLimit and MinifySyntax are not in the model"],
     scope="internal/js_printer/js_printer.go: printStmt (SExpr, SEmpty, SBlock, SIf, SFor, SForIn, SForOf, SWhile, SDoWhile, SLabel, SReturn, SThrow, SBreak, SContinue, SLocal, SExportDefault with an expression), printIf, wrapToAvoidAmbiguousElse, printBody, printBlock, printForLoopInit, printDecls, printSemicolonAfterStatement, printSemicolonIfNeeded, the top-level loop of Print; in printExpr the markers stmtStart / exportDefaultStart / forOfInitStart on top of PrecPrint.print; options default and MinifyWhitespace — against Spec/StmtGrammar.lean (ASI-free statement grammar with the lookahead restrictions)",
     assumptions=["stmtprint: tokens and line breaks only (blanks and indentation not modelled); IsSingleLine flags false; atoms: identifier 0 = `let`, 1 = `async`, 2 = EObject{}, 3 = EFunction{}, 4 = EClass{}, 5 = async EFunction{}; needsSemicolon is false on entry of printStmt"])
+
+# interop (C02): the ESM/CommonJS interop helpers of the runtime library
+_extend("C02",
+    lean_modules=["EsbuildModel.Props.C02Interop"],
+    theorems=_thms("C02Interop", "esm_init_once esm_error_cached esm_result_cached commonJS_reentry_returns_current_exports commonJS_throw_resets "
+                   "copyProps_never_overwrites_existing copyProps_adds_only_listed_keys copyProps_forwards_preserving_enumerability forwarder_reads_live "
+                   "toESM_steps toESM_default_rule_node_mode toESM_default_rule_esModule toESM_namespace_shape toCommonJS_shape export_defines_getter "
+                   "thunk_getter_reads_live export_assignment_refused") + ["EsbuildModel.ModuleInterop.table"],
+    kernels=[("interop", 600, 20000)],
+    open=["Interop: one end-to-end theorem `__toESM(__toCommonJS(ns))` reads back every binding is not stated (it follows from toCommonJS_shape, toESM_namespace_shape, forwarder_reads_live, thunk_getter_reads_live); the whole `__export` loop with an arbitrary world and `__commonJS` 'body runs at most once unless it threw' over arbitrary call trees are not proved (per-property / re-entry / reset forms are)",
+          "Interop: the linker side (who passes isNodeMode, `__toESM(require_x(), 1)`, wrapper creation), `__require` and `__glob` are not covered"],
+    scope="internal/runtime/runtime.go: the JavaScript text of __export, __copyProps, __reExport, __toESM, __toCommonJS, __esm, __esmMin, __commonJS, __commonJSMin — transcribed statement by statement on a heap model of JavaScript objects (Impl/Interop.lean) against Spec/ModuleInterop.lean (the documented default-export table); the kernel runs the REAL helper text from runtime.Source (modern and ES5 variants) in Node 20 on generated objects and compares event traces and descriptors",
+    assumptions=["interop: objects are ordinary objects (no Proxy); keys are not names of built-in prototype properties; own name/length of the closures the helpers create are not modelled; the for-in loop of __export takes its keys when it starts and skips a key only if it has been deleted (V8's behaviour, forced by the kernel); recursion through getters and prototype chains is bounded by fuel"])
